@@ -231,7 +231,7 @@ func subRun(prop, tier, repo string, extra ...string) (*emitResult, error) {
 	if err != nil {
 		return nil, err
 	}
-	args := append([]string{"-emit", "-prop", prop, "-tier", tier, "-repo", repo}, extra...)
+	args := append([]string{"-emit", "-prop", prop, "-tier", tier, "-repo", repo, "-verif", verifDir}, extra...)
 	cmd := exec.Command(exe, args...)
 	cmd.Stderr = os.Stderr
 	data, err := cmd.Output()
